@@ -1,14 +1,15 @@
 CHECKS = {
   "C04": dict(pkg="tstate", level="exploration",
               technique="property-based testing (rapid) of op-list histories against a map+undo-stack reference model, plus exhaustive small-scope enumeration of all op sequences",
-              level_text="Every generated history (parent state x block-level pending changes x get/insert/remove/checkpoint/rollback/commit/abandon over several views on one TState) is executed on the real TStateView/TState and on an independent map model; all keys are read back after every op and TState.ChangedKeys() is compared exactly at every commit. The exhaustive sub-run covers every sequence up to length 6 (thorough) / 4 (quick) over 2 keys x 2 values for all 144 initial configurations. Exploration, not proof: longer histories and larger universes are only sampled.",
-              level_note="views are used one after the other on a TState (what the executor guarantees for conflicting transactions); full permissions (scope is C05); storage is an in-memory map (state.ImmutableStorage) that never fails",
+              level_text="Every generated history (parent state x block-level pending changes x get/insert/remove/checkpoint/rollback/commit (non-terminal: the view stays in use)/commit+fresh view/drop over up to three interleaved live views on one TState) is executed on the real TStateView/TState and on an independent map model; after every op every live view, a fresh probe view and TState.ChangedKeys()/PendingChanges() are read back and compared (uncommitted changes visible only through their view; block-level state = parent + the commits so far), and at every commit ChangedKeys() must grow by exactly the view's differing keys. The exhaustive sub-run covers every sequence up to length 6 (thorough) / 4 (quick) over 2 keys x 2 values on one view slot for all 144 initial configurations. Exploration, not proof: longer histories and larger universes are only sampled.",
+              level_note="all views are driven from one goroutine; two generator rules (implicit preconditions of tstate) are excluded by construction and counted: a key is written by at most one live view at a time; a view is not rolled back below its own Commit onto a write that equalled the underlying value when it was made; full permissions (scope is C05); storage is an in-memory map (state.ImmutableStorage) that never fails",
               # percentages are taken over ALL evaluations, which the exhaustive enumeration dominates (its short
-              # sequences rarely roll back across a create+delete: 9.9 % of the random cases, <1 % of the merged total),
-              # so "rollback-across-create-delete" is reported as a label but not listed as essential
-              essential_labels=["delete-create-delete-of-underlying-key", "write-returns-key-to-underlying",
-                                "block-pending-tombstone", "several-committed-views"],
-              stages=[rapid("TestC04", 100000, 200000),
+              # sequences rarely contain delete-create-delete (21 % of the random cases), a rollback across a
+              # create+delete (7.7 %) or past an own commit (5.8 %), several live views (38 %)), so those are reported
+              # as labels but not listed as essential
+              essential_labels=["write-on-view-after-its-commit", "second-commit-of-same-view",
+                                "write-returns-key-to-underlying", "block-pending-tombstone", "several-committed-views"],
+              stages=[rapid("TestC04", 80000, 200000),
                       plain("TestC04Exhaustive", timeout_quick=600, timeout_thorough=7200)]),
   "C05": dict(pkg="tstate", level="exploration",
               technique="exhaustive permission-byte x key-state x operation table, plus property-based testing (rapid) of random transactions through chain.Transaction against a reference model with the permission lattice",
